@@ -45,6 +45,17 @@ check("C16", "model_checking",
       "(DataModel(other) while the other is still mutated) are out of scope; fillna/set_columns/Row writes not generated.",
       "explicit-state BFS on the implementation vs reference model", "DESIGN.md §2 C16")
 
+check("C17", "model_checking",
+      "Complete enumeration on the real EventManager: every registration list of <=3 handlers over 7 language-set "
+      "forms (list/str/set, incl. a str 'javascript' that must not match 'java' by substring) x 8 return values x "
+      "writes-out_data, through register and register_list, x 3 event languages; two-kind/unknown-kind products; "
+      "thorough adds all 4-handler lists over a reduced return set. Every notify is compared with a 15-line dispatch "
+      "model: which handlers ran in which order, the in_data each saw, final out_data, combined return. Plus the real "
+      "default table: invocation order = registration order filtered by language for every kind x language.",
+      "Handlers returning None never write out_data; the raw SUCCESS bit of the combined return is a don't-care when "
+      "another bit is set. Trusted: the dispatch model.",
+      "exhaustive enumeration of configurations on the implementation vs reference model", "DESIGN.md §2 C17")
+
 ALL = [f"C{n:02d}" for n in range(1, 21)]
 
 
